@@ -98,6 +98,38 @@ M = [
  ('C11', 'read-batch-drops-packet-at-50', CONN,
   "                if not packet:\n                    break\n                num_packets += 1\n                self.connection._react(packet)",
   "                if not packet:\n                    break\n                num_packets += 1\n                if num_packets == 50:\n                    break\n                self.connection._react(packet)"),
+ ('C09', 'empty-status-falls-back', CONN,
+  "        if status == {}:", "        if status == {'never': 1}:"),
+ ('C09', 'mismatch-wording-swapped', CONN,
+  "             if server_protocol in SUPPORTED_PROTOCOL_VERSIONS \\\n             else 'not supported'",
+  "             if server_protocol not in SUPPORTED_PROTOCOL_VERSIONS \\\n             else 'not supported'"),
+ ('C09', 'default-used-although-allowed', CONN,
+  "        self.handle_proto_version(proto)\n\n    def handle_proto_version",
+  "        self.handle_failure()\n\n    def handle_proto_version"),
+ ('C09', 'status-query-for-singleton', CONN,
+  "            if len(self.allowed_proto_versions) == 1:",
+  "            if len(self.allowed_proto_versions) == 0:"),
+ ('C09', 'handshake-port-constant', CONN,
+  "        handshake.server_port = self.options.port",
+  "        handshake.server_port = 25565"),
+ ('C09', 'ping-sent-when-disabled', CONN,
+  "            if self.do_ping:\n                ping_packet = serverbound.status.PingPacket()",
+  "            if True:\n                ping_packet = serverbound.status.PingPacket()"),
+ ('C09', 'login-name-ignores-profile', CONN,
+  "                    login_start_packet.name = self.auth_token.profile.name",
+  "                    login_start_packet.name = self.username"),
+ ('C09', 'mismatch-when-not-supported-only', CONN,
+  "        if proto not in self.connection.allowed_proto_versions:",
+  "        if proto not in SUPPORTED_PROTOCOL_VERSIONS:"),
+ ('C09', 'unsupported-allowed-version-accepted', CONN,
+  "            if proto_version not in SUPPORTED_PROTOCOL_VERSIONS:\n                raise ValueError",
+  "            if proto_version is None:\n                raise ValueError"),
+ ('C09', 'latency-negated', CONN,
+  "                self.handle_ping(now - packet.time)",
+  "                self.handle_ping(packet.time - now)"),
+ ('C09', 'status-handshake-uses-default-version', CONN,
+  "            self.context.protocol_version \\\n                = max(self.allowed_proto_versions,\n                      key=PROTOCOL_VERSION_INDICES.get)",
+  "            self.context.protocol_version = self.default_proto_version"),
 ]
 
 
